@@ -66,7 +66,7 @@ def innermost_ok(root, line_toks):
 def run(ctx):
     ctx.trusted += [
         "Lean 4.33 kernel + leanchecker; axioms ⊆ {propext, Classical.choice, Quot.sound}; `decide +kernel` for the finite operator-pair table",
-        "translator item E5 (operator ladder of body_parser.rs)",
+        "translator items E5 (operator ladder of body_parser.rs) and E6 (order of the alternatives of every ordered choice of mod.rs / body_parser.rs)",
         "the generator vlib/gen/wf.py IS the statement of 'the tree the grammar prescribes' for the oracle (a second, independent description of the grammar)",
     ]
     ctx.assumptions += [
@@ -75,9 +75,10 @@ def run(ctx):
     ]
     if ctx.replay:
         return replay(ctx)
-    ctx.extract(["E5_OperatorLadder"])
+    ctx.extract(["E5_OperatorLadder", "E6_AltOrders"])
     ctx.prove("GoldModel.Props.C06")
     ctx.prove("GoldModel.Props.C06Expr")
+    ctx.prove("GoldModel.Props.C06Alts")
     if not ctx.build_harness():
         return ctx.finish(rule=RULE)
     q = ctx.tier == "quick"
